@@ -64,8 +64,8 @@ def run(tier):
                 v.violation("Murmur3 hasher disagrees with the partitioner's token for a %d-byte key (%d chunkings tried; token le-bytes %s): data=%s" % (
                     len(bad["data"]), bad["chunkings"], bad["token"], bad["data"][:40]), [bad])
             else:
-                v.violation("prepared-statement token / encoded key wrong: markers=%s key component markers (key order)=%s cdc=%s encoded=%s token=%s" % (
-                    bad["markers"], bad["pkidx"], bad["cdc"], bad["encoded"][:40], bad["token"]), [bad])
+                v.violation("prepared-statement token / encoded key wrong: markers=%s key component markers (key order)=%s cdc=%s encoded=%s token=%s token through the CachingSession handle=%s" % (
+                    bad["markers"], bad["pkidx"], bad["cdc"], bad["encoded"][:40], bad["token"], bad.get("token_cached")), [bad])
             break
     distinct = len({json.dumps([r_.get("data"), r_.get("pkidx"), r_.get("values"), r_.get("cdc")]) for r_ in rows})
     v.add(evaluations=summ.get("hasher_runs", 0) + sum(1 for r_ in rows if r_.get("kind") == "pk"),
